@@ -363,6 +363,12 @@ fn c10(args: &Args) -> ! {
     configs.push(("big", Comp::None));
     if t {
         configs.push(("big", Comp::Zstd(5)));
+        configs.push(("big", Comp::Lz4(3)));
+        configs.push(("big", Comp::Lzma(1)));
+        // 12 contents of 48 KiB in one cluster / a 160 KiB content and an extra pack
+        configs.push(("wide", Comp::Zstd(5)));
+        configs.push(("mid", Comp::Zstd(5)));
+        configs.push(("mid", Comp::None));
     }
     if let Some(p) = &args.replay {
         let j: J = serde_json::from_str(&std::fs::read_to_string(p).expect("replay file")).unwrap();
